@@ -4,7 +4,10 @@ go 1.22.0
 
 toolchain go1.23.5
 
-require golang.org/x/tools v0.29.0
+require (
+	golang.org/x/text v0.21.0
+	golang.org/x/tools v0.29.0
+)
 
 require (
 	golang.org/x/mod v0.22.0 // indirect
